@@ -56,6 +56,12 @@ R3 checksum8 / classifiers: 2+3 (path terms; true-alternatives of the classifier
    4 (interval sets for `len(text)` and for the checksum value in [0, 255]), 3 (code-point sum recognised
    structurally), 6 (regular expression: syntax tree from CPython's `re._parser`, anchors / repeat counts / character
    classes compared with the table [0-9A-Za-z]; no string is ever matched).  Lemmas: L11-L15.
+   The summed items are the code points (inside the checksum8 obligation, `_encoded_sum`): 3 (the argument of the located
+   `sum` - also the summary of a summing loop - is, through value-preserving views and an identity comprehension, the bytes
+   of an encoding of the text: `S.encode(..)`, `bytes(S, enc)`, `bytearray(S, enc)`, `codecs.encode(S, ..)` with S the text
+   with characters removed), 6 (the constant codec name canonicalised with `codecs.lookup` and looked up in the table
+   `_ENC_WHY`; no text is ever encoded).  Violated for the codecs of the table, undecided for any other / a non-constant
+   codec, another S, or under a path condition on the text that is not a length test (an ASCII fast path).  Lemma: L31.
    Whole-URI coverage of the x64 shape test (own obligation, `_whole_string`): 1 (the call kind match / fullmatch / search of
    the located regex test, module-level `re.compile` constants resolved), 6 (first and last item of the pattern's parse
    tree: `\\A` / `^` / `\\Z` / `$`, re.MULTILINE from the flags and inline flags; membership of the whole tree in the
@@ -84,7 +90,11 @@ R5 staged beacon gate: 2+3 (path conditions carrying a positive classifier call 
    isalnum / isascii predicates).  Necessary condition: admitted checksum8 values within {92}, or {92, 93} when the path
    establishes the x64 shape.  Violated only when every condition that reads the request is one of these forms (else
    undecided).  Lemmas: L28, L30.
-R6 NetBIOS: 2+3 (sequence builder located by role: comprehension or one list-filling loop, analysed once), 3+4
+R6 NetBIOS: 2+3 (sequence builder located by role: comprehension or one list-filling loop, analysed once; a repository
+   generator function between the data and the builder - `for n in _nibbles(data)` - is resolved (1) and its single
+   for-loop walked once by the same path executor, parameters bound to the argument terms: the items it yields per element,
+   in order, are substituted for the consumer's loop variable, `_generator_items`; a generator of another shape - yields
+   outside the loop, under a test, in a while loop - is undecided), 3+4
    (structural matching of the nibble terms, polynomial normal form of the symbol / decoded-byte terms, affine index
    terms of the decoder under the loop's start/step), 6 (default offsets).  Lemmas: L17-L23.
 R7 pack is total on the representable range: 2+3 (the paths of pack that end in `raise` / a failing assert, their
@@ -161,11 +171,18 @@ Lemmas (each is an identity / inequality over the integers; the one-line reason 
      value and the x64 shape and another one with that value and without it: a condition on checksum8(uri) alone cannot
      imply `checksum8(uri) == 93 and shape`, and is_stager_x86 does not accept 93.  Conditions of a path that do not read
      the request are taken to be independent of its URI.
+ L31 The bytes of an encoding of a str are its code points only for ASCII text: UTF-8 writes a character c in
+     [U+0080, U+07FF] as (0xC0 | c >> 6, 0x80 | c & 63), byte sum 320 + (c >> 6) + (c & 63) against c = 64 * (c >> 6) +
+     (c & 63) - for U+00E9: C3 A9, 364 = 108 (mod 256), not 233; ASCII / Latin-1 have no byte for characters from U+0080 /
+     U+0100 on (the error handler raises, drops or substitutes); UTF-16 / UTF-32 write U+0100 as the bytes 00 01 [00 00] in
+     some order, sum 1, not 256 = 0 (mod 256), the variants without -le / -be also a byte order mark.  A str that holds
+     such a character therefore gets another checksum8 (or an exception) than the code point sum.   (codec definitions)
 """
 
 from __future__ import annotations
 
 import ast
+import codecs
 import copy
 import itertools
 import re
@@ -1407,7 +1424,7 @@ def run(ctx):
         "widths/byte orders their names promise and pack/unpack pass byteorder/signed through, pack sizing with ceil(bit_length/8) "
         "exactly in the case size is None; every returning path of unpack reads `signed` and `byteorder` (pack: `byteorder`) in its "
         "term or its conditions unless the path conditions confine it to an empty chunk (byte order: one byte); checksum8 returns 0 on exactly the text lengths [0, 3] and the code point sum without '/' "
-        "modulo 256 on [4, inf) (interval sets from the path conditions); the classifiers' true-alternatives cover exactly checksum "
+        "modulo 256 on [4, inf) (interval sets from the path conditions) - a sum over the bytes of an encoding of the text (str.encode / bytes(s, enc) with a constant codec of the table UTF-8/16/32, ASCII, Latin-1) is located and is a violation, the code units being the code points for ASCII text only (L31); the classifiers' true-alternatives cover exactly checksum "
         "value 92 / 93 (interval sets over [0, 255]) and for x64 the parsed regular expression is '/' + exactly four characters of the "
         "class [0-9A-Za-z] anchored at both ends (syntax tree, flags), and the x64 shape test constrains the whole URI - re.fullmatch, or a "
         "pattern ending in `\\Z` under re.match / with a start anchor under re.search; `$`, which also matches before a final newline, a "
@@ -1418,7 +1435,7 @@ def run(ctx):
         "on paths whose conditions confine checksum8(request uri) to 92, or to {92, 93} together with the x64 shape test (interval sets over [0, 255]; a checksum-only gate that admits 93 is a violation, L30) - and every returning path a known request takes without such a test returns None - in particular not "
         "object / module state in which the function or its caller stores extraction results (def-use on the path terms; violated when "
         "neither the path conditions nor the returned term read the request URI); the NetBIOS encoder emits (high nibble + offset, low nibble + offset) per byte (structural "
-        "nibble forms) and the decoder term over the pair positions (2j, 2j+1) is 16*(x - offset) + (y - offset) in normal form; "
+        "nibble forms; a repository generator function that feeds the sequence builder is resolved and its one for-loop walked once, the yielded items taking the place of the consumer's loop variable) and the decoder term over the pair positions (2j, 2j+1) is 16*(x - offset) + (y - offset) in normal form; "
         "every path of pack() that raises by itself admits only values outside the range representable at the width (region of "
         "the value as intervals with bounds a*2**(8*size) + b per case of signed / size None, disjoint from [-W/2, W/2 - 1] resp. "
         "[0, W - 1] at every width)."
@@ -1430,13 +1447,15 @@ def run(ctx):
         "a staged-beacon gate whose conditions on the request are neither classifier calls nor comparisons / memberships / one constant-table lookup of checksum8(request uri) and recognised shape tests of the URI (undecided)",
         "extraction results kept in state the rule cannot see being written (other classes / modules, containers reached through calls), or returned on an ungated path whose conditions read the request URI (undecided)",
         "spellings outside the recognised algebraic forms (reported as undecided)",
+        "a checksum8 that sums encoded bytes with a codec outside the table / a non-constant codec, of a text transformed otherwise than by removing characters, or on a path restricted by a non-length test of the text such as isascii() (undecided)",
+        "NetBIOS sequence builders fed by a repository generator that is not one for-loop yielding on a single body path (undecided)",
         "block-wise xor with while-loops, stateful key iterators shared between pieces, strides the algebra cannot relate to len(key), or under path conditions that bound the key length (undecided); a piece helper is assumed to be a function of its arguments (plain module-level function without global / nonlocal)",
         "WHAT a path of unpack/pack computes from `signed` / `byteorder` when it is not the int.from_bytes / to_bytes call (only that it reads them); pack's dependence on `signed` (the bytes of a representable value do not depend on it, only the range check does: R7)",
     ]
     rep.trusted_base = [
         "CPython ast", "int.from_bytes / to_bytes semantics", "CPython re._parser (parse tree of the x64 URI pattern; nothing is matched)",
         "constant folder for constant expressions (string module constants, re flags)", "csverif.absint (SymPoly normal form, Itv)",
-        "lemmas L1-L30 of the rules/c20.py docstring (length algebra, floor/ceiling division, known-bits facts for a byte, regex anchor/class semantics incl. `$` before a final newline, powers of 256 and the two's complement range, signed / byte-order dependence of from_bytes, key phase of a repeating-key XOR, results independent of the request URI, checksum8 blind to an appended '/')",
+        "lemmas L1-L31 of the rules/c20.py docstring (length algebra, floor/ceiling division, known-bits facts for a byte, regex anchor/class semantics incl. `$` before a final newline, powers of 256 and the two's complement range, signed / byte-order dependence of from_bytes, key phase of a repeating-key XOR, results independent of the request URI, checksum8 blind to an appended '/', code units of UTF-8/16/32, ASCII, Latin-1 vs code points)", "codecs.lookup (canonical name of a constant codec name; nothing is encoded)",
     ]
     from csverif import AnalysisError
 
@@ -2802,6 +2821,90 @@ def _codepoint_sum(e, p):
     return None
 
 
+# L31: the code units of a text encoding are not the code points.  canonical codec name (codecs.lookup) -> why the byte sum of
+# the encoded text differs from the code point sum modulo 256 for some str
+_ENC_WHY = {
+    "utf-8": "UTF-8 writes every character from U+0080 on as two to four bytes (U+00E9 -> C3 A9, 195 + 169 = 364 = 108 mod 256, not 233)",
+    "ascii": "ASCII has no byte for a character from U+0080 on (UnicodeEncodeError, or the character is dropped / substituted by the error handler)",
+    "iso8859-1": "Latin-1 has no byte for a character from U+0100 on (UnicodeEncodeError, or the character is dropped / substituted by the error handler)",
+    "utf-16": "UTF-16 writes a byte order mark (FF FE, 509 = 253 mod 256) and two bytes per character, whose sum is not the code point (U+0100 -> 00 01)",
+    "utf-16-le": "UTF-16 writes two bytes per character, whose sum is not the code point (U+0100 -> 00 01: 1, not 256 = 0 mod 256)",
+    "utf-16-be": "UTF-16 writes two bytes per character, whose sum is not the code point (U+0100 -> 01 00: 1, not 256 = 0 mod 256)",
+    "utf-32": "UTF-32 writes a byte order mark (FF FE 00 00, 509 = 253 mod 256) and four bytes per character, whose sum is not the code point (U+0100)",
+    "utf-32-le": "UTF-32 writes four bytes per character, whose sum is not the code point (U+0100 -> 00 01 00 00: 1, not 256 = 0 mod 256)",
+    "utf-32-be": "UTF-32 writes four bytes per character, whose sum is not the code point (U+0100 -> 00 00 01 00: 1, not 256 = 0 mod 256)",
+}
+
+
+def _encoded_text(t):
+    """`S.encode([encoding[, errors]])` / `bytes(S, encoding[, errors])` / `bytearray(S, encoding[, errors])` /
+    `codecs.encode(S[, encoding[, errors]])`: the bytes of an encoding of the str S -> (S, encoding term or None for the
+    default, which is UTF-8 in all four); None when `t` is not such a term."""
+    if not isinstance(t, ast.Call) or any(isinstance(x, ast.Starred) for x in t.args) or any(k.arg is None for k in t.keywords):
+        return None
+    d = dotted(t.func)
+    if isinstance(t.func, ast.Attribute) and t.func.attr == "encode" and d != "codecs.encode":
+        b = _callargs(t, ["encoding", "errors"])
+        return None if b is None else (t.func.value, b.get("encoding"))
+    if d in ("bytes", "bytearray"):
+        b = _callargs(t, ["source", "encoding", "errors"])
+        return (b["source"], b["encoding"]) if b and "source" in b and "encoding" in b else None
+    if d == "codecs.encode":
+        b = _callargs(t, ["obj", "encoding", "errors"])
+        return (b["obj"], b.get("encoding")) if b and "obj" in b else None
+    return None
+
+
+def _encoded_sum(e, p):
+    """Is `e` the sum of the *bytes of an encoding* of (a term over) the text parameter p - `sum(S.encode(..))`, also through
+    value-preserving views and an identity comprehension `(b for b in S.encode(..))`?  -> (codec name, reason why that is
+    not the code point sum for every str (L31)), (codec text, None) for an encoding outside the table, None when `e` is not
+    of this form.  The codec name is a constant of the analysed code, canonicalised with `codecs.lookup`; no text is encoded."""
+    if not (isinstance(e, ast.Call) and dotted(e.func) == "sum" and len(e.args) == 1 and not e.keywords):
+        return None
+    a = e.args[0]
+    for _ in range(4):
+        enc = _encoded_text(a)
+        if enc is not None:
+            break
+        if isinstance(a, (ast.GeneratorExp, ast.ListComp)) and len(a.generators) == 1 and not a.generators[0].ifs and isinstance(a.generators[0].target, ast.Name) \
+                and _is_param(a.elt, a.generators[0].target.id):
+            a = a.generators[0].iter
+        elif isinstance(a, ast.Call) and dotted(a.func) in _VIEWS and len(a.args) == 1 and not a.keywords:
+            a = a.args[0]
+        else:
+            return None
+    else:
+        return None
+    S, name = enc
+    if not _mentions(S, p):
+        return None
+    # S: the text itself, possibly with characters removed (`p.replace(c, "")`, `"".join(p.split(c))`) - what it keeps are
+    # characters of the text, so a non-ASCII character of the text reaches the encoder
+    T = S
+    while True:
+        if isinstance(T, ast.Call) and isinstance(T.func, ast.Attribute) and T.func.attr == "replace" and len(T.args) == 2 and not T.keywords and isinstance(_c(T.args[0]), str) and _c(T.args[1]) == "":
+            T = T.func.value
+        elif isinstance(T, ast.Call) and isinstance(T.func, ast.Attribute) and T.func.attr == "join" and _c(T.func.value) == "" and len(T.args) == 1 and not T.keywords \
+                and isinstance(T.args[0], ast.Call) and isinstance(T.args[0].func, ast.Attribute) and T.args[0].func.attr == "split" and len(T.args[0].args) == 1 and isinstance(_c(T.args[0].args[0]), str):
+            T = T.args[0].func.value
+        else:
+            break
+    if not _is_param(T, p):
+        return src(name)[:40] if name is not None else "utf-8", None
+    if name is None:
+        canon = "utf-8"
+    else:
+        v = _c(name)
+        if not isinstance(v, str):
+            return src(name)[:40], None
+        try:
+            canon = codecs.lookup(v).name
+        except (LookupError, ValueError, TypeError):
+            return repr(v), None
+    return canon, _ENC_WHY.get(canon)
+
+
 def _sum_loops(ex, e):
     """A copy of term `e` in which every loop-head symbol that is the accumulator of a summing for-loop
     (`acc = c; for v in IT: [if C(v):] acc += T(v)`, analysed once: the value at the end of an iteration is the head value
@@ -3206,7 +3309,15 @@ def r3(ctx):
                     total, shift = total.right, _c(total.left)
                 cs = _codepoint_sum(total, p)
                 good_m = (m == 256) if isinstance(v.op, ast.Mod) else (m == 255)  # L11
-                if cs is None or not isinstance(m, int):
+                es = _encoded_sum(total, p) if cs is None else None
+                if es is not None and isinstance(m, int):
+                    # the summed items are located: the bytes of an encoding of the text instead of its code points.  The two
+                    # agree on ASCII text only, so a path the conditions restrict by something other than the length stays open
+                    if es[1] is None or any(_mentions(a, p) and _atom_set(a, lenatom, dom) is None for a, _pol in s.conds):
+                        undec.append(f"checksum expression `{src(v)[:100]}` sums the bytes of the {es[0]} encoding of the text; not decided for this encoding / under the path conditions")
+                    else:
+                        bad.append(f"a text of {lens[0][0]} characters yields `{src(v)[:100]}`: the sum of the bytes of the {es[0]} encoding of the text, not of its code points - {es[1]}; the two agree for ASCII text only (L31)")
+                elif cs is None or not isinstance(m, int):
                     undec.append(f"checksum expression `{src(v)[:100]}` not recognised as a code point sum")
                 elif shift % 256:
                     bad.append(f"a text of {lens[0][0]} characters yields `{src(v)[:100]}`: the code point sum is shifted by the constant {shift}")
@@ -4181,6 +4292,89 @@ def _emissions(t, head):
     return None if b is None else b + list(items.elts)
 
 
+def _generator_items(ex, resolve, call):
+    """The iterable `call` is a call of a repository *generator function* whose body is one for-loop that yields on its
+    single body path (`for T in IT: [temporaries] yield A; yield B` / `yield from (A, B)`), nothing being yielded outside
+    that loop: -> (IT, T, [A, B]) over the argument terms of the call - per element of IT the generator produces A, B in
+    this order.  The loop body is walked once with the loop variable symbolic (the same executor as for the analysed
+    function; parameters bound to the argument terms).  "unknown" when the call is a call of a repository function
+    that is not of this shape, None when it is not a call of a repository function at all."""
+    if not isinstance(call, ast.Call):
+        return None
+    r = resolve(call)
+    if r is None:
+        return None
+    fn, skip, home = r
+    ys = [n for n in ast.walk(fn) if isinstance(n, (ast.Yield, ast.YieldFrom))]
+    if not ys or any(isinstance(n, (ast.FunctionDef, ast.AsyncFunctionDef, ast.Lambda)) for n in ast.walk(fn) if n is not fn):
+        return "unknown"
+    a = fn.args
+    if skip or a.vararg or a.kwarg or a.kwonlyargs or call.keywords or any(isinstance(x, ast.Starred) for x in call.args):
+        return "unknown"
+    names = [x.arg for x in a.posonlyargs + a.args]
+    dflt = param_defaults(fn)
+    if len(call.args) > len(names) or any(n not in dflt for n in names[len(call.args):]):
+        return "unknown"
+    preset = {n: x for n, x in zip(names, call.args)}
+    preset.update({n: dflt[n] for n in names[len(call.args):]})
+    sub = _Exec(fn, preset, None, ex.depth + 1, home)
+    sub.sites, sub.syms = ex.sites, ex.syms
+    try:
+        states = sub.run()
+    except (_Unsupported, RecursionError):
+        return "unknown"
+    if len(states) != 1 or states[0].end[0] not in ("fall", "return") or states[0].end[1] is not None or len(sub.loops) != 1:
+        return "unknown"
+    lp = next(iter(sub.loops.values()))
+    if not isinstance(lp.stmt, ast.For) or lp.stmt.orelse or lp.exits or len(lp.iters) != 1:
+        return "unknown"
+    inside = {id(n) for s in lp.stmt.body for n in ast.walk(s)}
+    if any(id(y) not in inside for y in ys):
+        return "unknown"  # something is yielded before / after the loop
+    items = []
+    seen = 0
+    for s, v in lp.iters[0].events:
+        if id(s) not in inside:
+            continue
+        here = [n for n in ast.walk(v) if isinstance(n, (ast.Yield, ast.YieldFrom))]
+        if not here:
+            continue
+        if not (isinstance(s, ast.Expr) and here == [v] and v.value is not None):
+            return "unknown"  # the value sent into the generator is used / a bare yield
+        seen += 1
+        if isinstance(v, ast.Yield):
+            items.append(v.value)
+        else:
+            seq = _strip_view(v.value)
+            if not isinstance(seq, (ast.Tuple, ast.List)) or any(isinstance(x, ast.Starred) for x in seq.elts):
+                return "unknown"
+            items.extend(seq.elts)
+    if seen != len(ys):
+        return "unknown"  # a yield in a nested statement the single body path did not pass (nested loop, handler)
+    tgt = copy.deepcopy(lp.stmt.target)
+    for n in ast.walk(tgt):
+        if isinstance(n, ast.Name):
+            n.id = lp.head.get(n.id, n.id)
+    return lp.iter, tgt, items
+
+
+def _through_generators(ex, resolve, sb):
+    """A sequence builder (iterable, target, element terms) whose iterable is a call of a repository generator function
+    (`_generator_items`): the builder over the generator's own iterable, every produced item substituted for the
+    builder's loop variable in the element terms (item-major order, as the consumer sees them).  -> builder, or "unknown"
+    when the iterable is a repository call that cannot be summarised."""
+    for _ in range(3):
+        it, tgt, elts = sb
+        g = _generator_items(ex, resolve, it)
+        if g is None:
+            return sb
+        if g == "unknown" or not isinstance(tgt, ast.Name):
+            return "unknown"
+        it2, tgt2, items = g
+        sb = (it2, tgt2, [_subst_name(e, tgt.id, y) for y in items for e in elts])
+    return "unknown"
+
+
 def _range_params(it):
     """range(b) / range(a, b) / range(a, b, s) with a constant step -> (start term, stop term, step int) or None."""
     if not (isinstance(it, ast.Call) and dotted(it.func) == "range" and not it.keywords and 1 <= len(it.args) <= 3):
@@ -4247,6 +4441,11 @@ def r6(ctx):
         sb = _seq_builder(ex, rets[0].end[1])
         if sb is None:
             ctx.undecided("R6", "AGREE", g, text, f"result `{src(rets[0].end[1])[:120]}` is neither a comprehension nor a list filled by one for-loop")
+            continue
+        # a repository generator function between the data and the builder (`for n in _nibbles(data)`): its items per element
+        sb = _through_generators(ex, _helper_resolver(ctx, g, ()), sb)
+        if sb == "unknown":
+            ctx.undecided("R6", "AGREE", g, text, f"the sequence is built from the items of `{_show(rets[0].end[1], 100)}`: a repository call the rule cannot summarise as a per-byte generator")
             continue
         sb = (_unview(sb[0], gps[:1]) if g is d else sb[0], sb[1], [_unview(x, gps[:1]) for x in sb[2]])
         if g is e:
